@@ -270,7 +270,9 @@ def check_invariant(out, tag, t):
             else:
                 per = t.numel() // t.shape[ax] if t.numel() else 0
                 ng = t.shape[ax] * (per // gs if gs else 1)
-                if gs is None:
+                if t.ndim == 1 and gs is None:
+                    want = (1,)  # a vector is one group: the whole tensor shares one scale
+                elif gs is None:
                     want = [1] * t.ndim
                     want[ax] = t.shape[ax]
                     want = tuple(want)
